@@ -396,7 +396,10 @@ def constants(repo):
     g3 = int(need(r"free\s*\(\s*s->data\s*-\s*(\d+)\s*\)", fr, "free(s->data - N)").group(1))
     if not (g1 == g2 == g3):
         raise GenError("guard sizes disagree: malloc +%d, data += %d, free - %d" % (g1, g2, g3))
-    return {"loopPrologue": pro, "loopEpilogue": epi, "guardPreBytes": g1, "guardPostFrames": post}
+    player = open(os.path.join(repo, "src", "player.c"), errors="replace").read()
+    tbl = need(r"\binvloop_table\s*\[\s*\]\s*=\s*\{([^}]*)\}", player, "invloop_table").group(1)
+    table = [int(x, 0) for x in re.findall(r"[-+]?\w+", tbl)]
+    return {"loopPrologue": pro, "loopEpilogue": epi, "guardPreBytes": g1, "guardPostFrames": post, "invloopTable": table}
 
 
 # ---- output -------------------------------------------------------------------
@@ -447,6 +450,8 @@ def generate(repo=None):
     L.append("/-- guard bytes in front of every sample's data and guard frames after it (libxmp_load_sample) -/")
     L.append("def guardPreBytes : Nat := %d" % k["guardPreBytes"])
     L.append("def guardPostFrames : Nat := %d" % k["guardPostFrames"])
+    L.append("/-- `invloop_table` (src/player.c): per-tick increment of the invert-loop counter by effect speed -/")
+    L.append("def invloopTable : List Nat := [" + ", ".join(str(x) for x in k["invloopTable"]) + "]")
     L.append("\nend Xmp.Gen.DataWriters\n")
     return "\n".join(L), entries
 
